@@ -139,7 +139,7 @@ CORPUS = [
 def main():
     R = vf.Report(PID)
     proved = R.proof_step()
-    n = 12000 if R.thorough else 1200
+    n = 40000 if R.thorough else 1200
     sessions = [c for c, _ in CORPUS]
     meta = [("corpus", e) for _, e in CORPUS]
     for _ in range(n):
